@@ -1427,6 +1427,7 @@ def run(run, tier, replay=None):
         collision_probe(run)
         naming_probe(run, tier)
         encoding_probe(run, tier)
+        metadata_probe(run, tier)
     bad = run_cases(HDR, terms[:off], shard=250) + [off + i for i in fbad]
     print("phase corr %.1fs" % (time.time() - t0))
     nloc, badloc = stage_b_locations(run) if not replay else (0, 0)
@@ -1512,6 +1513,77 @@ def encoding_probe(run, tier):
                             run.violation("oracle", {**case, "doc_json": doc, "note": "a generated file is not written in the requested encoding (decoded with it, it differs from the utf-8 generation's text)",
                                                      "first_difference": [k, B[k][max(0, i - 30):i + 40], txt[max(0, i - 30):i + 40]]})
                             break
+                finally:
+                    var.close()
+        finally:
+            base.close()
+
+
+def metadata_probe(run, tier):
+    """package_version_override / project_name_override / package_name_override, each alone and all together, in EVERY flavour that
+    has a metadata file (poetry, pdm: pyproject.toml; setup: setup.py), both tiers. The documented expectation is computed
+    without the implementation: declared version = the override when given, info.version otherwise; declared name = the project
+    name; package = package override or project with `-` -> `_`; and the overrides change ONLY those declarations (substituting the
+    expected strings back gives the no-override tree byte for byte)."""
+    doc = plain_doc(run.rng)
+    doc["info"] = {"title": "Plain Api", "version": "2.0.3-doc"}
+    doc_version, default_project = "2.0.3-doc", "plain-api-client"
+    VER, PROJ, PKG = "9.8.7.dev77", "ZqMeta-Proj2", "ZqMetaPkg_3"
+    cfgs = [("version", {"package_version_override": VER}), ("project", {"project_name_override": PROJ}), ("package", {"package_name_override": PKG}),
+            ("all", {"package_version_override": VER, "project_name_override": PROJ, "package_name_override": PKG})]
+
+    def declared(files, fl):
+        """(name, version, package entries) as DECLARED in the flavour's metadata file, by text"""
+        if fl == "setup":
+            t = files.get("setup.py", "")
+            return (re.findall(r'^\s*name="(.*)",\s*$', t, re.M), re.findall(r'^\s*version="(.*)",\s*$', t, re.M), re.findall(r'package_data=\{"([^"]*)"', t))
+        t = files.get("pyproject.toml", "")
+        head = t.split("[tool.ruff]")[0]
+        return (re.findall(r'^name = "(.*)"\s*$', head, re.M), re.findall(r'^version = "(.*)"\s*$', head, re.M),
+                re.findall(r'\{include = "([^"]*)"\}', head) if fl == "poetry" else [])
+
+    for fl in ("poetry", "pdm", "setup"):
+        base = Tree(doc, {}, meta=fl)
+        try:
+            B = texts(base)
+            case0 = {"probe": "metadata", "flavour": fl, "config": {}}
+            run.note_case(case0, nontrivial=True, kind="C:metadata-probe")
+            n, v, pk = declared(B, fl)
+            exp_pk = [default_project.replace("-", "_")] if fl in ("poetry", "setup") else []
+            if (n, v, pk) != ([default_project], [doc_version], exp_pk):
+                run.violation("oracle", {**case0, "doc_json": doc, "note": "without overrides the metadata file does not declare the default project name / the document's version / the default package",
+                                         "declared": [n, v, pk], "documented": [[default_project], [doc_version], exp_pk]})
+            for label, cfg in cfgs:
+                var = Tree(doc, cfg, meta=fl)
+                try:
+                    case = {"probe": "metadata", "flavour": fl, "config": cfg}
+                    run.note_case(case, nontrivial=True, kind="C:metadata-probe")
+                    if var.exc is not None or not var.ok:
+                        run.violation("oracle", {**case, "doc_json": doc, "note": "generation failed", "error": repr(var.exc)})
+                        continue
+                    V = texts(var)
+                    project, pkg = documented_names(cfg, default_project)
+                    version = cfg.get("package_version_override") or doc_version
+                    n, v, pk = declared(V, fl)
+                    exp_pk = [pkg] if fl in ("poetry", "setup") else []
+                    if (n, v, pk) != ([project], [version], exp_pk):
+                        run.violation("oracle", {**case, "doc_json": doc, "note": "the flavour's metadata file does not declare the documented project name / version / package (override when given, the document's value otherwise)",
+                                                 "first_difference": ["setup.py" if fl == "setup" else "pyproject.toml", {"declared": [n, v, pk], "documented": [[project], [version], exp_pk]}]})
+                        continue
+                    # ONLY those declarations: map the documented strings back, in the metadata files and the package directory name
+                    pairs = word_pairs({k_: v_ for k_, v_ in ((project, default_project), (pkg, default_project.replace("-", "_"))) if k_ != v_})
+                    allowed = {"pyproject.toml", "setup.py", "README.md"}
+                    Vm = {}
+                    for k, t in V.items():
+                        k2 = tok_replace(k, pairs)
+                        if k2 in allowed:
+                            t = tok_replace(t, pairs)
+                            if k2 != "README.md":
+                                t = t.replace('"%s"' % version, '"%s"' % doc_version)
+                        Vm[k2] = t
+                    d = first_diff(B, Vm)
+                    if d:
+                        run.violation("oracle", {**case, "doc_json": doc, "note": "a naming / version override changed something other than the documented declarations", "first_difference": d})
                 finally:
                     var.close()
         finally:
